@@ -1,0 +1,52 @@
+//go:build verif
+
+// Machine-checked contracts for this package (comment-only; compiled only with -tags verif,
+// and even then contributes no code).  Read by /verif/govc; see /verif/DESIGN.md.
+
+package authorizer
+
+//@ -- Ghost record of which exit of AuthorizeTierOperation was taken (1 = allowed, 2 = forbidden) and of the
+//@ -- decision an Authorize call returned inside one goroutine.
+//@ ghost authzPath int
+//@ ghost authzDecision k8sauth.Decision
+
+//@ -- The operation is allowed exactly when the tier GET check allowed and (the per-policy check or the
+//@ -- tier wildcard check) allowed; when no authorizer is configured everything is allowed.
+//@ func (*authorizer).AuthorizeTierOperation
+//@   property C34
+//@   requires a != nil && authzPath == 0
+//@   option safety off
+//@   ghost at call logrus.Trace: authzPath = 1 ; check decisionGetTier == k8sauth.DecisionAllow && (decisionPolicy == k8sauth.DecisionAllow || decisionTierWildcard == k8sauth.DecisionAllow)
+//@   ghost at call forbiddenMessage: authzPath = 2 ; check !(decisionGetTier == k8sauth.DecisionAllow && (decisionPolicy == k8sauth.DecisionAllow || decisionTierWildcard == k8sauth.DecisionAllow)) ; check arg3 == decisionGetTier
+//@   ghost at call GetNamespace#1: check tierScopedResource == "tier." + reqResource(attributes)
+//@   ensures authzPath == 1 ==> res == nil
+//@   ensures authzPath == 2 ==> res != nil
+//@   ensures old(a.Authorizer) != nil && res == nil ==> authzPath == 1
+//@   ensures old(a.Authorizer) == nil ==> res == nil && authzPath == 0
+
+//@ -- goroutine 1: "may the user GET the tier?"  (verb get, cluster-scoped resource tiers, named after the tier)
+//@ func (*authorizer).AuthorizeTierOperation$1
+//@   property C34
+//@   option safety off
+//@   ghost at call Authorize: authzDecision = res0 ; check cast(a, k8sauth.AttributesRecord).Verb == "get" && cast(a, k8sauth.AttributesRecord).Resource == "tiers" && cast(a, k8sauth.AttributesRecord).Name == *tierName && cast(a, k8sauth.AttributesRecord).Namespace == "" && cast(a, k8sauth.AttributesRecord).Subresource == "" && cast(a, k8sauth.AttributesRecord).ResourceRequest
+//@   ensures *decisionGetTier == authzDecision
+
+//@ -- goroutine 2: the caller's own verb on tier.<resource>, with the name exactly as requested
+//@ func (*authorizer).AuthorizeTierOperation$2
+//@   property C34
+//@   option safety off
+//@   ghost at call Authorize: authzDecision = res0 ; check cast(a, k8sauth.AttributesRecord).Verb == reqVerb(*attributes) && cast(a, k8sauth.AttributesRecord).Resource == *tierScopedResource && cast(a, k8sauth.AttributesRecord).Name == reqName(*attributes) && cast(a, k8sauth.AttributesRecord).Namespace == reqNamespace(*attributes) && cast(a, k8sauth.AttributesRecord).Subresource == reqSubresource(*attributes) && cast(a, k8sauth.AttributesRecord).ResourceRequest
+//@   ensures *decisionPolicy == authzDecision
+
+//@ -- goroutine 3: the caller's own verb on tier.<resource>, named <tier>.* (wildcard for the whole tier)
+//@ func (*authorizer).AuthorizeTierOperation$3
+//@   property C34
+//@   option safety off
+//@   ghost at call Authorize: authzDecision = res0 ; check cast(a, k8sauth.AttributesRecord).Verb == reqVerb(*attributes) && cast(a, k8sauth.AttributesRecord).Resource == *tierScopedResource && cast(a, k8sauth.AttributesRecord).Name == *tierName + ".*" && cast(a, k8sauth.AttributesRecord).Namespace == reqNamespace(*attributes) && cast(a, k8sauth.AttributesRecord).Subresource == reqSubresource(*attributes) && cast(a, k8sauth.AttributesRecord).ResourceRequest
+//@   ensures *decisionTierWildcard == authzDecision
+
+//@ -- logging only: touches no program state
+//@ func logAuthorizerAttributes
+//@   property C34
+//@   option safety off
+//@   assigns nothing
